@@ -173,9 +173,14 @@ def load_stmt_cases(timeout: int = 600) -> tuple[list[dict], list[dict]]:
 		raise Machinery(f'PyStmt: evaluation error: {res.out[-800:]}')
 	stmts = [json.loads(line) for line in res.lines('STMT ')]
 	defs_ = [json.loads(line) for line in res.lines('DEF ')]
+	global SLOT_CASES
+	SLOT_CASES = [json.loads(line) for line in res.lines('SLOT ')]
 	if not stmts or not defs_:
 		raise Machinery('PyStmt: no cases emitted')
 	return stmts, defs_
+
+
+SLOT_CASES: list[dict] = []
 
 
 def _expr(text: str) -> tuple:
